@@ -65,7 +65,12 @@ def render_stmt(rng, st, files=None):
         return st['name'] + rng.choice([' = ', ' = ', ' EQU ']) + rexpr(rng, st['e'])
     if k == 'data':
         d = {1: '.byte', 2: '.2byte', 4: '.4byte', 8: '.8byte'}[st['w']]
-        return d + ' ' + ', '.join(rexpr(rng, e) for e in st['vals'])
+        items = [rexpr(rng, e) for e in st['vals']]
+        if rng.random() < 0.12 and not (items and items[0].startswith(("'", '"'))):
+            # an item with nothing in it (trailing, doubled or leading comma) is no value: it reserves and emits nothing
+            items.insert(rng.choice([0, len(items), len(items), rng.randint(0, len(items))]), rng.choice(['', '', ' ']))
+            return d + ' ' + ','.join(items)
+        return d + ' ' + ', '.join(items)
     if k in ('bytes', 'str'):
         return st['text']
     if k == 'fill':
